@@ -97,6 +97,8 @@ func buildLazySpec() (*interp.LazySpec, error) {
 	spec.IntSet["go/ast.ChanType.Dir"] = []int64{1, 2, 3}
 	spec.StringRe["go/ast.Ident.Name"] = `^[A-Za-z_][A-Za-z0-9_]*$`
 	spec.StringRe["go/ast.BasicLit.Value"] = `^.+$`
+	// a comment is a //-line without line break or a /* */ block (the scanner's two forms)
+	spec.StringRe["go/ast.Comment.Text"] = "^(//[\\t -~]*|/\\*[\\t\\n -)+-~]*\\*/)$" // printable ASCII; block comments without an inner '*': bounds
 
 	spec.Leaf["go/ast.Expr"] = []string{"*go/ast.Ident", "*go/ast.BasicLit", "*go/ast.BadExpr"}
 	spec.Leaf["go/ast.Stmt"] = []string{"*go/ast.EmptyStmt", "*go/ast.BadStmt"}
